@@ -200,3 +200,66 @@ class FakeManager:
 
     def Lock(self):  # noqa: N802
         return SchedLock()
+
+
+# ------------------------------------------------------------------------------------------------
+# an Executor whose tasks are logical (baton) threads: the tasks submitted before the first result() is awaited run
+# concurrently under the scheduler, interleaved at every scheduling point (manager-proxy operations, locks)
+# ------------------------------------------------------------------------------------------------
+from concurrent.futures import Executor, Future  # noqa: E402
+
+
+class _BatonFuture(Future):
+    def __init__(self, ex):
+        super().__init__()
+        self._ex = ex
+
+    def result(self, timeout=None):
+        if not self.done():
+            self._ex.drive()
+        return super().result(0)
+
+    def exception(self, timeout=None):
+        if not self.done():
+            self._ex.drive()
+        return super().exception(0)
+
+
+class BatonExecutor(Executor):
+    """every batch of submitted tasks is executed as one set of logical threads under a fresh Sched sharing one Chooser"""
+
+    def __init__(self, chooser: Chooser) -> None:
+        self.chooser = chooser
+        self.batch: list = []
+        self.status: list[str] = []
+
+    def submit(self, fn, /, *args, **kwargs):
+        f = _BatonFuture(self)
+        self.batch.append((f, fn, args, kwargs))
+        return f
+
+    def drive(self) -> None:
+        batch, self.batch = self.batch, []
+        if not batch:
+            return
+        s = Sched(self.chooser)
+
+        def body(f, fn, args, kwargs):
+            def run():
+                try:
+                    f.set_result(fn(*args, **kwargs))
+                except BaseException as e:  # noqa: BLE001
+                    f.set_exception(e)
+            return run
+
+        for tid, (f, fn, args, kwargs) in enumerate(batch):
+            s.spawn(tid, body(f, fn, args, kwargs))
+        st = s.run()
+        self.status.append(st)
+        if st != "ok":
+            for f, *_ in batch:
+                if not f.done():
+                    f.set_exception(RuntimeError(f"scheduler: {st}"))
+
+    def shutdown(self, wait=True, *, cancel_futures=False):
+        pass
